@@ -142,6 +142,36 @@ Theorem C12_meta_no_app_id : forall m, is_thread m -> meta_rejected (meta_check 
 Proof. exact meta_no_app_id. Qed.
 Print Assumptions C12_meta_no_app_id.
 
+(* ---- the two classes decided by the handlers (emulator-core model: dispatch of the eight models from the
+   tables dumped from the source + the hand-written switches, Emu/DecodeDefs.v, Emu/MarkDefs.v): a trace
+   that contains such an event, at ANY position, after any prefix and before any suffix, on any thread, is never
+   emulated as ok by the complete model (handlers, propagation, PRV, end-of-trace checks) *)
+From OV Require Emu.EmuCoreDefs Emu.DecodeDefs Emu.MarkDefs Emu.CatalogDefs Emu.RejectDefs Proofs.RejectProofs.
+
+(* unknown events: any model/category/value bytes that no model lists (apart from the base model's value-blind
+   burst and unordered-region categories and the legacy 6TC), with any payload *)
+Theorem C12_unknown_event_never_ok : forall sx lint en cs m c v p j aux pre t who rest,
+  CatalogDefs.listed m c v = false -> CatalogDefs.legacy m c v = false -> CatalogDefs.value_blind m c = false ->
+  exists w, EmuCoreDefs.run sx lint (pre ++ (t, who, MarkDefs.decode_all en cs m c v p j aux) :: rest) = EmuCoreDefs.Err w.
+Proof. exact RejectProofs.unknown_event_never_ok. Qed.
+Print Assumptions C12_unknown_event_never_ok.
+
+(* wrong payload sizes for the events whose size the model checks (RejectDefs.wrong_size: OHx < 4, OAs <> 4,
+   OAr <> 8, OM[ OM] OM= <> 12, VTc VTC VTx VTe VTr VTp < 8, 6Tc <> 8, 6Tx 6Te 6Tr 6Tp < 4, VYc / 6Yc not jumbo) *)
+Theorem C12_wrong_payload_size_never_ok : forall sx lint en cs m c v p j aux pre t who rest,
+  RejectDefs.wrong_size m c v (length p) j = true ->
+  exists w, EmuCoreDefs.run sx lint (pre ++ (t, who, MarkDefs.decode_all en cs m c v p j aux) :: rest) = EmuCoreDefs.Err w.
+Proof. exact RejectProofs.wrong_payload_size_never_ok. Qed.
+Print Assumptions C12_wrong_payload_size_never_ok.
+
+(* an OHx with a 3-byte payload, a VYc without the jumbo flag, an OAs with 8 bytes are wrong sizes; the
+   regular shapes are not *)
+Example C12_ex_wrong_size :
+  RejectDefs.wrong_size DecodeDefs.M_OVNI 72 120 3 false = true /\ RejectDefs.wrong_size DecodeDefs.M_OVNI 72 120 16 false = false /\
+  RejectDefs.wrong_size DecodeDefs.M_NOSV 89 99 9 false = true /\ RejectDefs.wrong_size DecodeDefs.M_NOSV 89 99 9 true = false /\
+  RejectDefs.wrong_size DecodeDefs.M_OVNI 65 115 8 false = true /\ RejectDefs.wrong_size DecodeDefs.M_OVNI 65 115 4 false = false.
+Proof. vm_compute. repeat split. Qed.
+
 (* non-vacuity *)
 Example C12_ex_valid : valid_obs (hdr ++ [0; 79; 66; 46; 5; 0; 0; 0; 0; 0; 0; 0]) true [(8, 12, 5)].
 Proof. apply (tiles_decides _ true). vm_compute. reflexivity. Qed.
